@@ -235,7 +235,7 @@ class Check(PropertyCheck):
         method = rng.weighted([(5, b"GET"), (5, b"POST"), (1, b"HEAD"), (1, b"PUT"), (1, b"OPTIONS"), (1, b"DELETE")])
         if method in (b"GET", b"HEAD") and rng.chance(0.7): body = b""
         path = rng.pick([b"/", b"/a", b"/a/b?c=d", b"/%20x", b"*", b"/" + b"p" * rng.randint(1, 30)])
-        auth = rng.pick([b"example.com", b"example.com:80", b"example.com:8080", b"other.example", b"[::1]:80", b"EXAMPLE.com"])
+        auth = rng.pick([b"example.com", b"example.com:80", b"example.com:8080", b"other.example", b"[::1]:80", b"EXAMPLE.com", b"xn--bcher-kva.example"])
         fields = self.gen_fields(rng, cv)
         if cv == 2:
             hostmode = rng.weighted([(6, "auth"), (2, "both"), (2, "host")])
@@ -627,7 +627,8 @@ class Check(PropertyCheck):
         cv, sv, rs = case["cv"], case["sv"], case["resp"]
         method = Src(case, "req").method or b"GET"
         if sv == 2:
-            return f"resp 2 {cv} {hx(method)} {enc_pairs(U(rs['block']))} {rs['body_hex']} {enc_pairs(U(rs.get('trailers')))}"
+            rt = 1 if (case["cv"] == 2 and case["req"].get("trailers")) else 0
+            return f"resp 2 {cv} {hx(method)} {rt} {enc_pairs(U(rs['block']))} {rs['body_hex']} {enc_pairs(U(rs.get('trailers')))}"
         if cv == 1: return None
         src = Src(case, "resp")
         if not src.wellformed or not (200 <= rs["status"] <= 999): return None
@@ -635,7 +636,7 @@ class Check(PropertyCheck):
         if len(p.messages) != 1 or p.stop is not None: return None
         m = p.messages[0]
         blk = [(b":status", b"%d" % m["status"])] + list(m["fields"])
-        return f"resp 1 {cv} {hx(method)} {enc_pairs(blk)} {hx(m['body'])} -"
+        return f"resp 1 {cv} {hx(method)} 0 {enc_pairs(blk)} {hx(m['body'])} -"
 
     @staticmethod
     def _render_ref(p):
